@@ -75,10 +75,11 @@ def plan(tier):
     if tier == "quick":
         for pl in placements:
             add(pl, "opaque", NONE)
+            add(pl, "openum", NONE)
         for pl in (("-", "-", "-", "-"), ("P", "P", "P", "P")):
             for a in attrs[1:]:
                 add(pl, "opaque", a)
-        bound = {"abi_rename_placements": len(placements), "owners": ["opaque"], "attr_variants_on_all_placements": ["none"],
+        bound = {"abi_rename_placements": len(placements), "owners": ["opaque", "openum (opaque enum)"], "attr_variants_on_all_placements": ["none"],
                  "attr_variants_on_2_placements": len(attrs) - 1, "placements_with_attr_variants": ["all absent", "pattern on all 4 levels"]}
     else:
         for owner in U.OWNERS:
@@ -160,11 +161,14 @@ def gen_outputs(wd, name, mods, keep_snippets):
         with open(src, "w") as fh:
             fh.write("\n".join(U.module_src(m) for m in ch))
         for b in BACKENDS:
-            jobs.append((ci, b, src, os.path.join(d, "out_" + b), ch))
+            jobs.append((ci, b, src, os.path.join(d, "out_" + b), ch, ()))
+            if b == "kotlin":
+                # the finalizer variant of the opaque template has its own destructor call site
+                jobs.append((ci, b, src, os.path.join(d, "out_kotlin_fin"), ch, ("kotlin.use_finalizers_not_cleaners=true",)))
 
     def one(j):
-        ci, b, src, out, ch = j
-        p = run_tool(b, src, out, configs=default_configs(b), timeout=900)
+        ci, b, src, out, ch, extra = j
+        p = run_tool(b, src, out, configs=list(default_configs(b)) + list(extra), timeout=900)
         if p.returncode != 0:
             raise MachineryError("diplomat-tool %s failed (rc=%s) on chunk %d of %s (first module %s): %s" % (
                 b, p.returncode, ci, name, desc(ch[0]), p.stderr[-2500:]))
